@@ -235,3 +235,58 @@ add("C20", "distiller mutates a node", DIFF,
     "    def _verif_bad(self, source: exp.Expr) -> None:\n        source.set(\"this\", None)\n\n    def _dice_coefficient(self, source: exp.Expr, target: exp.Expr) -> float:\n",
     "C20.d")
 add("C20", "benign: rename matching_set", DIFF, "matching_set", "matching_pairs", "silent", 0)
+
+# ------------------------------------------------------------------------------- C15
+LIN = "sqlglot/lineage.py"
+add("C15", "revert lineage fix (iterate a set into downstream)", LIN,
+    "    source_columns = dict.fromkeys(find_all_in_scope(select, exp.Column))\n",
+    "    source_columns = set(find_all_in_scope(select, exp.Column))\n", "C15.a",
+    extra=[(LIN, "        source_columns.update(dict.fromkeys(source.find_all(exp.Column)))\n", "        source_columns |= set(source.find_all(exp.Column))\n")])
+add("C15", "revert resolver fix (list of keys & keys)", "sqlglot/optimizer/resolver.py",
+    "                right_columns = set(right)\n                columns = [col for col in dict.fromkeys(left) if col in right_columns]\n",
+    "                columns = list(dict.fromkeys(left).keys() & dict.fromkeys(right).keys())\n", "C15.a")
+add("C15", "revert required_args fix (set iterated into error list)", CORE,
+    "        cls.required_args = tuple(k for k, v in cls.arg_types.items() if v)\n",
+    "        cls.required_args = {k for k, v in cls.arg_types.items() if v}\n", "C15.a",
+    extra=[(CORE, "    required_args: t.ClassVar[tuple[str, ...]] = (\"this\",)\n", "    required_args: t.ClassVar[set[str]] = {\"this\"}\n")])
+add("C15", "remove sorted() in tsort", "sqlglot/helper.py",
+    "        result.extend(sorted(current))  # type: ignore\n", "        result.extend(current)  # type: ignore\n", "C15.a")
+add("C15", "set(cols) materialised into a list in an optimizer rule", "sqlglot/optimizer/pushdown_projections.py",
+    "def pushdown_projections(\n",
+    "def _verif_bad(cols: list[str]) -> list[str]:\n    out = []\n    for c in set(cols):\n        out.append(c)\n    return out\n\n\ndef pushdown_projections(\n", "C15.a")
+add("C15", "drop a field from Parser.reset", P,
+    "        self._prev_comments = []\n        self._pipe_cte_counter = 0\n        self._chunks = []\n",
+    "        self._prev_comments = []\n        self._chunks = []\n", "C15.b.reset")
+add("C15", "new parser state attribute never reset", P,
+    "        self._connect_by_depth = 0\n\n    def _advance(self",
+    "\n    def _advance(self", "C15.b.reset")
+add("C15", "tokenizer reset re-initialises with a different value", "sqlglot/tokenizer_core.py",
+    "        self._comments = []\n        self._char = \"\"\n        self._end = False\n        self._peek = \"\"\n        self._prev_token_line = -1\n\n    def tokenize",
+    "        self._comments = []\n        self._char = \"\"\n        self._end = False\n        self._peek = \"\"\n        self._prev_token_line = 0\n\n    def tokenize", "C15.b.reset")
+add("C15", "tokenize() no longer resets first", "sqlglot/tokenizer_core.py",
+    "        self.reset()\n        self.sql = sql\n        self.size = len(sql)\n", "        self.sql = sql\n        self.size = len(sql)\n", "C15.b.reset")
+add("C15", "revert _next_name fix", G,
+    "        self.unsupported_messages = []\n        self._next_name = name_sequence(\"_t\")\n", "        self.unsupported_messages = []\n", "C15.b.generator")
+add("C15", "revert no_identify fix (toggle without finally)", G,
+    "        try:\n            return func(*args, **kwargs)\n        finally:\n            self.identify = original\n",
+    "        result = func(*args, **kwargs)\n        self.identify = original\n        return result\n", "C15.b.generator")
+add("C15", "new generator method flips pretty without restore", G,
+    "    def sep(self, sep: str = \" \") -> str:\n",
+    "    def _verif_bad(self, e: exp.Expr) -> str:\n        self.pretty = False\n        return self.sql(e)\n\n    def sep(self, sep: str = \" \") -> str:\n", "C15.b.generator")
+add("C15", "subclass body pops from the parent's KEYWORDS", "sqlglot/dialects/duckdb.py",
+    "        KEYWORDS = {\n            **tokens.Tokenizer.KEYWORDS,\n            \"//\": TokenType.DIV,",
+    "        tokens.Tokenizer.KEYWORDS.pop(\"/*+\", None)\n        KEYWORDS = {\n            **tokens.Tokenizer.KEYWORDS,\n            \"//\": TokenType.DIV,", "C15.c")
+add("C15", "class body mutates an inherited table by alias", "sqlglot/dialects/duckdb.py",
+    "    DATE_PART_MAPPING = {\n        **Dialect.DATE_PART_MAPPING,\n        \"DAYOFWEEKISO\": \"ISODOW\",\n    }\n",
+    "    DATE_PART_MAPPING = Dialect.DATE_PART_MAPPING\n", "C15.c")
+add("C15", "module-level name_sequence", "sqlglot/optimizer/qualify_tables.py",
+    "def qualify_tables(\n", "_NEXT = name_sequence(\"_q\")\n\n\ndef qualify_tables(\n", "C15.e")
+add("C15", "benign: iterate a set into another set", "sqlglot/optimizer/pushdown_projections.py",
+    "def pushdown_projections(\n",
+    "def _verif_ok(cols: list[str]) -> set[str]:\n    out = set()\n    for c in set(cols):\n        out.add(c.lower())\n    return out\n\n\ndef pushdown_projections(\n", "silent")
+add("C15", "benign: sorted(set) into a list", "sqlglot/optimizer/pushdown_projections.py",
+    "def pushdown_projections(\n",
+    "def _verif_ok(cols: list[str]) -> list[str]:\n    return sorted(set(cols))\n\n\ndef pushdown_projections(\n", "silent")
+add("C15", "benign: generator toggle under try/finally", G,
+    "    def sep(self, sep: str = \" \") -> str:\n",
+    "    def _verif_ok(self, e: exp.Expr) -> str:\n        saved = self.pretty\n        self.pretty = False\n        try:\n            return self.sql(e)\n        finally:\n            self.pretty = saved\n\n    def sep(self, sep: str = \" \") -> str:\n", "silent")
